@@ -474,6 +474,8 @@ def prof_C18(d, rng):
         d["hooks"] = [h for h in W.HOOK_NAMES if rng.random() < 0.6]
     d["p_hook_fail"] = rng.choice([0.0, 0.05, 0.1])
     d["nested"] = rng.random() < 0.3
+    d["log_level_changes"] = rng.random() < 0.3
+    d["pre_handler"] = rng.random() < 0.3
 
 
 def c14_probe(world, hist, pred, stats):
@@ -570,7 +572,7 @@ def c17_eval_world(world, root, stats):
                 stats.probe("run1-without-rerun-file")
             continue
         locs = A.rerun_locations(text)
-        if not locs:
+        if not locs or any(v["rule"] == "stale-file" for (_w, v, _c) in out):
             continue
         w2 = copy.deepcopy(world)
         w2["script"] = {}
@@ -645,3 +647,21 @@ _reg("C17", c17_evaluate, c17_reproduce, "exploration",
      "hook-error / skipped scenarios, plain and outline rows, in and outside rules; file content vs census in run order; "
      "run 2 is fed '@FILE' with all faults removed and must execute exactly the listed scenarios; " + NONTRIVIAL,
      {"quick": 1300, "thorough": 25000})
+
+
+# --- C05: parser file-fault simulator ----------------------------------------
+from . import parsersim as PS    # noqa: E402
+
+_reg("C05", PS.evaluate, PS.reproduce, "fault_enumeration",
+     "per sampled valid rendered document EVERY (line position x storage fault kind) is enumerated: torn write after / "
+     "inside each line, lost line, duplicated line, swapped adjacent lines; plus each catalogued grammar violation "
+     "(second Feature, free text after a step, Examples outside an outline, And/But without predecessor, wrong cell "
+     "count, malformed tag token, second Background) at every position where it is a violation, through parse_file "
+     "(file on the scratch disk) / parse_feature / parse_rule / parse_scenario / parse_steps / parse_tags, plus line "
+     "soups in several languages. distinct = distinct base documents; non-trivial = documents with more than 5 lines; "
+     "evaluations = faulted parses",
+     {"quick": 60, "thorough": 1500}, minimise=PS.minimise,
+     extra_assumptions=["documents are rendered from the abstract trees of sim/world.py (English keywords and aliases; "
+                        "other languages only in line soups)"],
+     coverage_extra={"enumeration": "complete over line positions x fault kinds for each sampled document"})
+PROPS["C05"]["assumptions"] = [a for a in PROPS["C05"]["assumptions"] if "reference model" not in a and "user code" not in a]
